@@ -37,7 +37,7 @@ pub fn plan(id: usize) -> Option<Plan> {
         opts,
         quick_runs: q,
         thorough_runs: t,
-        adv_len: (192 * 1024, 1024 * 1024),
+        adv_len: (256 * 1024, 1024 * 1024),
         level,
     };
     Some(match id {
